@@ -311,6 +311,10 @@ def _numstr(v):
         return v.as_long()
     if z3.is_rational_value(v):
         return str(v)
+    if z3.is_true(v):
+        return True
+    if z3.is_false(v):
+        return False
     return None
 
 
